@@ -469,7 +469,15 @@ def gen_case(rng, long_only):
         w = {a: 0.0 for a in assets}
     elif shape < 0.12:
         w = {a: rng.choice([0.0, 1e-13]) for a in assets}
-    near = shape >= 0.12 and rng.random() < 0.12
+    if shape >= 0.12 and rng.random() < 0.08:
+        # plain integer signals (+1 / -1 / 0 / 2), as a rule-based model may return them
+        w = {a: rng.choice([1, 1, 2, 0]) for a in assets}
+        if all(v == 0 for v in w.values()):
+            w[assets[0]] = 1
+        int_w = True
+    else:
+        int_w = False
+    near = shape >= 0.12 and rng.random() < 0.12 and not int_w
     if near:
         equity = float(rng.choice([2.5e8, 1e9, 7.5e8]))       # large enough for 1e-5 of the allocation to be many shares
     case = {'prices': prices, 'equity': equity, 'fee': fee, 'weights': w}
@@ -480,6 +488,8 @@ def gen_case(rng, long_only):
         for a in assets:
             if rng.random() < 0.5:
                 w[a] = -w[a]
+        if int_w:
+            case['integer_weights'] = True
         if shape >= 0.12 and rng.random() < 0.1 and n >= 2:
             # zero NET but non-zero gross exposure
             w[assets[0]], w[assets[1]] = 0.5, -0.5
